@@ -77,7 +77,7 @@ pub fn run(env: &Env) -> Report {
             if with_store { std::fs::write(user_dir(&xdg).join("phonetic-candidate-selection.json"), serde_json::to_string(&store_sample()).unwrap()).unwrap(); }
             let ctx = |variant: &str, events: &Vec<String>| json!({"stream": "c05", "layout": PHONETIC, "opts": opts.bits_str(), "target": target, "variant": variant, "store": with_store, "events": events});
             // (a) fresh, direct
-            let mut a = match Sess::new(&mut t, &env.data, "a", PHONETIC, opts, &xdg) { Some(s) => s, None => continue };
+            let mut a = match Sess::new(&mut t, &env.data, "a", PHONETIC, opts, &xdg) { Some(mut s) => { s.follow_sel = false; s } None => continue };
             let ra = type_direct(&mut a, &mut t, &target);
             rep.eval(Some(&format!("{}|{}|{}", opts.bits_str(), with_store, target)));
             if ra == Obs::Panic { rep.violation("C01", "panic", format!("typing {:?}", target), ctx("direct", &a.events)); continue; }
@@ -85,7 +85,7 @@ pub fn run(env: &Env) -> Report {
             let k = if env.quick() { 3 } else { 12 };
             for v in 0..k {
                 let id = format!("b{}", v);
-                let mut b = match Sess::new(&mut t, &env.data, &id, PHONETIC, opts, &xdg) { Some(s) => s, None => continue };
+                let mut b = match Sess::new(&mut t, &env.data, &id, PHONETIC, opts, &xdg) { Some(mut s) => { s.follow_sel = false; s } None => continue };
                 let rb = type_edited(&mut b, &mut t, &mut rng, &target);
                 if !same(&ra, &rb) { rep.violation("C05", "history-dependent", format!("target {:?} opts {}: direct {:?} vs edited {:?}", target, opts.bits_str(), render_obs(&ra, true), render_obs(&rb, true)), ctx("edited", &b.events)); }
                 t.line(&format!("drop {}", id));
@@ -93,7 +93,7 @@ pub fn run(env: &Env) -> Report {
             }
             // (c) warm context: related words composed and committed with the preselected index (no learning)
             {
-                let mut c = match Sess::new(&mut t, &env.data, "w", PHONETIC, opts, &xdg) { Some(s) => s, None => continue };
+                let mut c = match Sess::new(&mut t, &env.data, "w", PHONETIC, opts, &xdg) { Some(mut s) => { s.follow_sel = false; s } None => continue };
                 let nwarm = 1 + rng.below(if env.quick() { 6 } else { 30 });
                 for _ in 0..nwarm {
                     let other = match rng.below(5) {
@@ -111,8 +111,8 @@ pub fn run(env: &Env) -> Report {
                 if !same(&ra, &rc) { rep.violation("C05", "warm-context-differs", format!("target {:?} opts {}: fresh {:?} vs warm {:?}", target, opts.bits_str(), render_obs(&ra, true), render_obs(&rc, true)), ctx("warm", &c.events)); }
                 rep.count("warm-context");
                 // (d) interleaved with a second live context typing related text
-                let mut d1 = match Sess::new(&mut t, &env.data, "d1", PHONETIC, opts, &xdg) { Some(s) => s, None => continue };
-                let mut d2 = match Sess::new(&mut t, &env.data, "d2", PHONETIC, Opts::from_bits((rng.next() & 0x7FF) as u32 | 2), &xdg) { Some(s) => s, None => continue };
+                let mut d1 = match Sess::new(&mut t, &env.data, "d1", PHONETIC, opts, &xdg) { Some(mut s) => { s.follow_sel = false; s } None => continue };
+                let mut d2 = match Sess::new(&mut t, &env.data, "d2", PHONETIC, Opts::from_bits((rng.next() & 0x7FF) as u32 | 2), &xdg) { Some(mut s) => { s.follow_sel = false; s } None => continue };
                 let other: String = format!("{}{}", target, "er").chars().rev().collect::<String>() + &target;
                 let oc: Vec<char> = other.chars().filter(|c| crate::code_ok(*c)).collect();
                 let mut rd = Obs::Unit;
